@@ -125,9 +125,49 @@ def generate():
             f"Definition gen_mbr_scaling_mode_new : Z := {mode_new}.\n")
 
 
+def generate_interpolator():
+    """FourierInterpolator: the statements are compared with their expected text except for the scaling mode, which is translated"""
+    tree = ast.parse(open(os.path.join(REPO, "exponax", "_interpolation.py")).read())
+    cls = [n for n in tree.body if isinstance(n, ast.ClassDef) and n.name == "FourierInterpolator"]
+    if len(cls) != 1:
+        raise TranslationError("class FourierInterpolator")
+    init = strip_doc(find_func(cls[0].body, "__init__").body)
+    want = {0: "self.num_spatial_dims = state.ndim - 1", 1: "self.domain_extent = domain_extent", 2: "self.num_points = state.shape[-1]",
+            4: "self.wavenumbers = build_scaled_wavenumbers(self.num_spatial_dims, self.domain_extent, self.num_points, indexing=indexing)"}
+    if len(init) != 5 or not all(same(init[i], t) for i, t in want.items()):
+        raise TranslationError("FourierInterpolator.__init__: " + repr([ast.unparse(x) for x in init])[:300])
+    st = init[3]
+    if not (isinstance(st, ast.Assign) and ast.unparse(st.targets[0]) == "self.state_hat_scaled" and isinstance(st.value, ast.BinOp)
+            and isinstance(st.value.op, ast.Div) and ast.unparse(st.value.left) == "fft(state, num_spatial_dims=self.num_spatial_dims)"):
+        raise TranslationError("FourierInterpolator: scaled spectrum " + ast.unparse(st))
+    c = st.value.right
+    if not (isinstance(c, ast.Call) and ast.unparse(c.func) == "build_scaling_array" and [ast.unparse(a) for a in c.args] == ["self.num_spatial_dims", "self.num_points"]
+            and sorted(k.arg for k in c.keywords) == ["indexing", "mode"]):
+        raise TranslationError("FourierInterpolator: scaling array " + ast.unparse(c))
+    kw = {k.arg: k.value for k in c.keywords}
+    if ast.unparse(kw["indexing"]) != "indexing" or not (isinstance(kw["mode"], ast.Constant) and kw["mode"].value in MODES):
+        raise TranslationError("FourierInterpolator: scaling array arguments " + ast.unparse(c))
+    call = strip_doc(find_func(cls[0].body, "__call__").body)
+    wantc = ["x_bloated: Float[Array, 'D ... 1'] = jnp.expand_dims(x, axis=space_indices(self.num_spatial_dims))",
+             "exp_term: Complex[Array, ...(N // 2) + 1] = jnp.exp(jnp.sum(1j * self.wavenumbers * x_bloated, axis=0))",
+             "exp_term: Complex[Array, '1 ... (N//2)+1'] = exp_term[None, ...]",
+             "interpolation_operation: Complex[Array, 'C ... (N//2)+1'] = self.state_hat_scaled * exp_term",
+             "interpolated_value: Float[Array, C] = jnp.real(jax.vmap(jnp.sum)(interpolation_operation))",
+             "return interpolated_value"]
+
+    def strip_ann(n):
+        return ast.unparse(ast.Assign(targets=[n.target], value=n.value, lineno=0)) if isinstance(n, ast.AnnAssign) else ast.unparse(n)
+    got = [strip_ann(x) for x in call]
+    exp = [strip_ann(ast.parse(t).body[0]) for t in wantc]
+    if got != exp:
+        raise TranslationError("FourierInterpolator.__call__: " + repr(got)[:400])
+    return (f"Definition gen_interp_scaling_mode : Z := {MODES[kw['mode'].value]}.\n"
+            "(* value at x = Re sum_modes (u_hat / reconstruction scaling) * exp(i sum_c k_c x_c), per channel; wavenumbers scaled by 2 pi / L *)\n")
+
+
 def run():
     try:
-        text = generate()
+        text = generate() + generate_interpolator()
     except Exception as e:
         msg = f"{type(e).__name__}: {e}".replace("(*", "( *").replace("*)", "* )")
         write_if_changed(OUT, "(* GENERATED by harness/translate/resample.py -- TRANSLATION FAILED, no definitions.\n   " + msg + " *)\n")
@@ -136,4 +176,4 @@ def run():
 
 
 if __name__ == "__main__":
-    print(generate())
+    print(generate() + generate_interpolator())
